@@ -47,3 +47,43 @@ impl IterSum for Vec<u128> {
     open spec fn sitems(&self) -> Seq<u128> { self@ }
     #[verifier::external_body] fn sum(self) -> (r: u128) { unimplemented!() }
 }
+
+// ---- more adapters (A-ITER) and rayon (A-RAYON: parallel iterators evaluate pure closures; their result equals the
+// sequential evaluation over the same items, except that WHICH error a failing try_* returns is unspecified)
+pub open spec fn opt_flatten<U>(s: Seq<Option<U>>) -> Seq<U> decreases s.len() {
+    if s.len() == 0 { Seq::empty() } else if s.last() is Some { opt_flatten(s.drop_last()).push(s.last()->Some_0) } else { opt_flatten(s.drop_last()) }
+}
+pub open spec fn filter_map_decided<T, U, F: Fn(T) -> Option<U>>(f: F, items: Seq<T>, out: Seq<U>, opts: Seq<Option<U>>) -> bool {
+    opts.len() == items.len() && (forall|i: int| 0 <= i < items.len() ==> call_ensures(f, (items[i],), #[trigger] opts[i])) && out == opt_flatten(opts)
+}
+pub open spec fn map_of_pairs<K, V>(s: Seq<(K, V)>) -> Map<K, V> decreases s.len() {
+    if s.len() == 0 { Map::empty() } else { map_of_pairs(s.drop_last()).insert(s.last().0, s.last().1) }
+}
+pub trait FromItems<T>: Sized { spec fn built_from(items: Seq<T>, r: Self) -> bool; }
+impl<K, V> FromItems<(K, V)> for HashMap<K, V> { open spec fn built_from(items: Seq<(K, V)>, r: Self) -> bool { r@ == map_of_pairs(items) } }
+impl<T> FromItems<T> for Vec<T> { open spec fn built_from(items: Seq<T>, r: Self) -> bool { r@ == items } }
+pub trait IterChain2<T>: Sized {
+    spec fn items2(&self) -> Seq<T>;
+    fn enumerate(self) -> (r: Vec<(usize, T)>)
+        ensures r@.len() == self.items2().len(), forall|i: int| 0 <= i < r@.len() ==> (#[trigger] r@[i]).0 == i && r@[i].1 == self.items2()[i];
+    fn filter_map<U, F: Fn(T) -> Option<U>>(self, f: F) -> (r: Vec<U>)
+        requires forall|i: int| 0 <= i < self.items2().len() ==> call_requires(f, (#[trigger] self.items2()[i],)),
+        ensures exists|opts: Seq<Option<U>>| #[trigger] filter_map_decided(f, self.items2(), r@, opts);
+    fn collect<B: FromItems<T>>(self) -> (r: B) ensures B::built_from(self.items2(), r);
+    /// rayon try_for_each / Iterator::try_for_each: Ok iff every call is Ok; otherwise the error of some failing call
+    fn try_for_each<E, F: Fn(T) -> Result<(), E>>(self, f: F) -> (r: Result<(), E>)
+        requires forall|i: int| 0 <= i < self.items2().len() ==> call_requires(f, (#[trigger] self.items2()[i],)),
+        ensures r is Ok ==> forall|i: int| 0 <= i < self.items2().len() ==> call_ensures(f, (#[trigger] self.items2()[i],), Ok::<(), E>(())),
+                r is Err ==> exists|i: int| 0 <= i < self.items2().len() && call_ensures(f, (#[trigger] self.items2()[i],), r);
+}
+impl<T> IterChain2<T> for Vec<T> {
+    open spec fn items2(&self) -> Seq<T> { self@ }
+    #[verifier::external_body] fn enumerate(self) -> (r: Vec<(usize, T)>) { unimplemented!() }
+    #[verifier::external_body] fn filter_map<U, F: Fn(T) -> Option<U>>(self, f: F) -> (r: Vec<U>) { unimplemented!() }
+    #[verifier::external_body] fn collect<B: FromItems<T>>(self) -> (r: B) { unimplemented!() }
+    #[verifier::external_body] fn try_for_each<E, F: Fn(T) -> Result<(), E>>(self, f: F) -> (r: Result<(), E>) { unimplemented!() }
+}
+/// rayon: `par_iter()` / `into_par_iter()` as the Vec of item references
+pub trait ParIterExt<T> { spec fn pitems(&self) -> Seq<T>; fn par_iter<'a>(&'a self) -> (r: Vec<&'a T>) ensures refs_of(r@, self.pitems()); }
+impl<T> ParIterExt<T> for Vec<T> { open spec fn pitems(&self) -> Seq<T> { self@ } #[verifier::external_body] fn par_iter<'a>(&'a self) -> (r: Vec<&'a T>) { unimplemented!() } }
+impl<T> ParIterExt<T> for [T] { open spec fn pitems(&self) -> Seq<T> { self@ } #[verifier::external_body] fn par_iter<'a>(&'a self) -> (r: Vec<&'a T>) { unimplemented!() } }
